@@ -221,7 +221,10 @@ class Runner:
         if "ignoring" in out and "forall" in out:
             raise Undecided("cbmc ignored a quantifier in %s" % tag)
         odd = [p for p in props if p["status"] not in ("SUCCESS", "FAILURE")]
-        if odd:
+        real_fail = [p for p in props if p["status"] == "FAILURE" and CANARY not in p["description"]]
+        # CBMC 6 reports obligations that are only reachable through a violated one as UNKNOWN: with a real FAILURE present they are
+        # consequences of it (and are dropped from the failed list); without one they mean the solver gave up
+        if odd and not real_fail:
             raise Undecided("cbmc left %d obligations undecided (status %s) in %s - solver resource limit?" % (len(odd), odd[0]["status"], tag))
         canary = [p for p in props if CANARY in p["description"]]
         oblig = [p for p in props if CANARY not in p["description"]]
@@ -239,7 +242,7 @@ class Runner:
             raise Undecided("no postcondition obligations generated for %s" % tag)
         if unit.loop_contracts and not any("loop invariant" in p["description"].lower() for p in oblig):
             raise Undecided("loop contracts requested but no loop-invariant obligations generated for %s" % tag)
-        failed = [p for p in oblig if p["status"] != "SUCCESS"]
+        failed = [p for p in oblig if p["status"] == "FAILURE"]
         res = {
             "unit": unit.name, "tag": tag, "target": unit.target, "dir": d,
             "obligations": len(oblig), "discharged": len(oblig) - len(failed), "postconditions": len(post),
